@@ -262,35 +262,6 @@ fn c04a_index_zero_records() {
     kani::cover!(true, "end reached");
 }
 
-// C02 / C16: an index with 128 records - the smallest count whose multibyte encoding needs two bytes, so the padding that
-// aligns the index to four bytes depends on the size of the count field.  All bytes concrete (no solver choice involved: the
-// run decides one 264-byte input); it exists for the arithmetic around the record loop that only counts >= 128 exercise.
-//@ {"name":"c02e_index_128_records","wip":true,"no_inputs":true,"props":["C02","C16","C04"],"tier":"thorough","obligation":"C02-E","timeout":3600,"mem_gb":13,"functions":["xz::reader::Index::parse","xz::parse_multibyte_integer_from_reader","xz::count_multibyte_integer_size_for_value","xz::encode_multibyte_integer"],"bounds":"index with 128 records (1, 1): count field 80 01, 256 record bytes, 1 byte of index padding, CRC32; unwind 262","assumes":[]}
-#[kani::proof]
-#[kani::unwind(262)]
-fn c02e_index_128_records() {
-    let mut b = [1u8; 264];
-    b[0] = 0x80;
-    b[1] = 0x01;
-    // b[2..258] = 128 records (unpadded 1, uncompressed 1); indicator + count + records = 1 + 2 + 256 = 259 -> 1 padding byte
-    b[258] = 0;
-    let mut body = [1u8; 260];
-    body[0] = 0;
-    body[1] = 0x80;
-    body[2] = 0x01;
-    body[259] = 0;
-    let c = crc32_of(&body).to_le_bytes();
-    b[259] = c[0]; b[260] = c[1]; b[261] = c[2]; b[262] = c[3];
-    let mut src = Src::<264>::new(b, 263);
-    let r = Index::parse(&mut src);
-    assert!(r.is_ok(), "C02-E: well-formed index with 128 records refused");
-    let ix = r.unwrap();
-    assert!(ix.number_of_records == 128 && ix.records.len() == 128, "C02-E: records lost or invented");
-    assert!(src.pos == 263, "C16: index parser did not stop exactly after the index CRC");
-    kani::cover!(true, "end reached");
-    core::mem::forget(ix);
-}
-
 //@ {"name":"c04a_index_one_record","props":["C04","C06"],"tier":"thorough","obligation":"C04-A","timeout":2400,"mem_gb":20,"functions":["xz::reader::Index::parse","xz::encode_multibyte_integer","xz::count_multibyte_integer_size_for_value"],"bounds":"count byte 0x01 concrete; two one-byte record fields arbitrary (< 0x80) and 4 CRC bytes arbitrary; unwind 11","assumes":["record count concrete = 1","record fields are single-byte multibyte integers (layout concrete)"]}
 #[kani::proof]
 #[kani::unwind(11)]
